@@ -138,6 +138,15 @@ PROPS = {
         "assumptions": COMMON_ASSUME,
         "trusted_base": ["modelled, not verified: crc32fast, data-encoding BASE32_NOPAD"],
     },
+    "C07": {
+        "claim": "TODO",
+        "note": "TODO",
+        "props_file": "props/C07.v",
+        "shards": (8, 16),
+        "rule": "TODO",
+        "assumptions": COMMON_ASSUME,
+        "trusted_base": [],
+    },
     "C09": {
         "claim": "Coq theorems (closed, no axioms) over executable mirrors of every (S)LEB128 codec in the code: Nat::decode, Int::decode, the "
                  "typed deserializer's 9-byte fast paths with their fall-backs, and the 128-bit decoders map EVERY terminated byte string of ANY "
